@@ -100,6 +100,9 @@ pub struct PSummary {
 pub struct PMetric {
     pub labels: Vec<(String, String)>,
     pub ts: i64,
+    /// the timestamp is set explicitly even if it is zero (a custom collector may do that)
+    #[serde(default)]
+    pub ts_set: bool,
     #[serde(with = "fbits::opt")]
     pub counter: Option<f64>,
     #[serde(with = "fbits::opt")]
@@ -161,6 +164,7 @@ pub fn metric_of(m: &proto::Metric, _t: PType) -> PMetric {
     PMetric {
         labels: m.get_label().iter().map(|l| (l.name().to_string(), l.value().to_string())).collect(),
         ts: m.timestamp_ms(),
+        ts_set: false,
         counter: m.counter.as_ref().map(|c| c.value()),
         gauge: m.gauge.as_ref().map(|c| c.value()),
         untyped: m.untyped.as_ref().map(|c| c.value()),
@@ -225,7 +229,7 @@ pub fn to_proto(f: &PFamily) -> proto::MetricFamily {
             lps.push(lp);
         }
         m.set_label(lps);
-        if pm.ts != 0 {
+        if pm.ts != 0 || pm.ts_set {
             m.set_timestamp_ms(pm.ts);
         }
         if let Some(v) = pm.counter {
